@@ -373,11 +373,14 @@ class B:
             e = self.nm("e")
             derive = [f"{e} = {d} + {self.draw(st.integers(0, 3))}"]
             shown = e
+        # the operand may sit anywhere inside the argument expression (second argument of a clamp, nested call, either side of an operator)
+        wrap = self.draw(st.sampled_from(OPERAND_WRAPS))
+        arg = wrap.format(shown)
         if use == "RANGE":
             k = self.nm("k")
-            uses = derive + [f"for {k} in range({shown}):", f"    mon.write({k})"]
+            uses = derive + [f"for {k} in range({arg}):", f"    mon.write({k})"]
         else:
-            uses = derive + [use.format(shown), f"mon.write({shown})"]
+            uses = derive + [use.format(arg), f"mon.write({shown})"]
         if form == "branch_const":
             lines = [f"{d} = 3", f"if {self.cond()}:", f"    {d} = {self.draw(st.integers(4, 9))}"] + uses
             self.both("body", lines)
@@ -421,6 +424,9 @@ class B:
             self.both("loop", [f"{h}({k3})"])
         self.stale_possible = True
         return "param_shadow"
+
+OPERAND_WRAPS = ["{0}", "{0}", "min(200, {0})", "min({0}, 200)", "max(1, {0})", "max({0}, 1)", "min(200, max(0, {0}))", "max(0, min({0}, 200))", "abs({0})", "int({0})",
+                 "({0} + 1)", "(1 + {0})", "(2 * {0})", "(20 - {0})", "(3 + min(40, {0}))", "({0} if {0} > 3 else 1)", "abs(0 - {0})", "max(2, 1, {0})", "int({0} * 1.5)"]
 
 KINDS = ["branch_isolation", "pattern_from_history", "param_shadow", "sleep", "led_args", "range", "analog_write", "len_safe", "flash_pattern", "glyph", "sensor_model", "runtime_operand"]
 
